@@ -20,7 +20,9 @@
    * that the variants of commute() mean the pattern with swapped operands is by construction of `variant`
      (Match/CommuteProofs.v); a separate declarative characterisation of `variant` is not given;
    * constants: `isclose` over the rationals (the float32 value read from the tensor, the python float of the
-     pattern); rounding inside math.isclose is not modelled (the generators stay 3% away from the bound). *)
+     pattern); rounding inside math.isclose is not modelled: the random generators stay 3% away from the bound, the
+     tolerance-boundary families (dyadic tolerances: every double operation of math.isclose is exact; decimal tolerances:
+     the float32 neighbours of the bound on which the exact and the double verdict coincide) go up to the bound. *)
 From Coq Require Import List ZArith String Bool QArith Qabs.
 Close Scope Q_scope.
 Require Import OV.Match.Pattern OV.Match.Matcher OV.Match.Spec OV.Match.SoundProofs OV.Match.CompleteProofs
@@ -344,9 +346,11 @@ Theorem C06_extra_inputs_only_if_allowed : forall g s p np h, nlocal g s p np h 
 Proof. exact input_count_iff. Qed.
 Print Assumptions C06_extra_inputs_only_if_allowed.
 
+(* (session 6: constants of any shape are in the model -- `cval_view cv` = (shape, elements in row-major order); the
+   statement is the earlier one with "0-d" / "shape (len,)" spelled through the view, see Props/C06_const.v) *)
 Theorem C06_constant_within_tolerance : forall g q rel abs x,
   const_ok g (CPScalar q rel abs) x = true <->
-  exists y, assoc Nat.eqb x (g_consts g) = Some (CScalar y) /\ isclose y q rel abs = true.
+  exists cv y, assoc Nat.eqb x (g_consts g) = Some cv /\ cval_view cv = Some ([], [y]) /\ isclose y q rel abs = true.
 Proof. exact const_scalar_iff. Qed.
 Print Assumptions C06_constant_within_tolerance.
 
@@ -358,7 +362,8 @@ Print Assumptions C06_isclose_meaning.
 
 Theorem C06_constant_list : forall g ps rel abs x,
   const_ok g (CPVec ps rel abs) x = true <->
-  exists ys, assoc Nat.eqb x (g_consts g) = Some (CVec ys) /\ all_close ys ps rel abs = true.
+  exists cv ys, assoc Nat.eqb x (g_consts g) = Some cv /\ cval_view cv = Some ([List.length ps], ys) /\
+                all_close ys ps rel abs = true.
 Proof. exact const_vector_iff. Qed.
 Print Assumptions C06_constant_list.
 
